@@ -76,6 +76,10 @@ func (r *Reshape) String() string {
 
 func processShape(newShape, currentShape []int) error {
 	for i := 0; i < len(newShape); i++ {
+		if newShape[i] < -1 {
+			return ops.ErrDimension("dim sizes must be positive, 0 or -1")
+		}
+
 		if newShape[i] == 0 {
 			if i >= len(currentShape) {
 				return ops.ErrDimension("could not infer dim size")
